@@ -78,6 +78,10 @@ CLAIMS = {
          "Theorems C15_*: for every stored/source type of the modelled universe (bool, integers and enumerations of every width and signedness, float/double, pointers with base-class offset, trivially copyable classes with converting constructor / conversion operator, a class with user-provided copy/move), every source form (contiguous container, node-based container, generated range, C array, pointer, contiguous iterator, other iterator, move_iterator) x lvalue/rvalue and every length: the stored objects are item by item repr(T(source item)), exactly n of them; MEMCPY_COMPATIBLE implies the conversion keeps the object representation; lvalue ranges are not moved from, rvalue ranges / move_iterators once per consumed item. C15_pinned_rule_refuted: the pinned tree's rule fails (bool <- uint8_t{2}); repaired by a fix commit. "
          "Tie: 640 instantiations (45 type pairs x 11 FixedSize forms + 4 VaryingSize forms) of real emplace_back, values incl. extremes and lengths 0..5, iterator sources longer than the parameter; stored bytes, move counters of an instrumented class, items consumed from a generated range, source unchanged; vs the extracted model and vs a Python static_cast oracle.",
          "5 C15"),
+ "C17": ("proof (every allocating operation allocates before any other effect; a failed step changes nothing and returns its blocks) + exhaustive fault enumeration against the real library",
+         "Theorems C17_*_allocates_first: for every parameter list, allocator kind and operand state the model's construction, reserve, copy construction, copy assignment, move assignment between unequal allocators and the element's construction / copy / move assignment emit ALL their allocations before any construction, destruction, move or release (induction over the event producers). C17_failed_step_changes_nothing / _returns_its_blocks: a step whose k-th allocation fails leaves all vectors and elements as they were (strong guarantee) and releases the blocks it obtained. Scope: only the allocator throws. "
+         "Tie (this is where the real code is decided; it did terminate, double-free and double-destroy before four fix commits): for generated vector / element / single-vector histories every allocating step x every allocation index (1st, 2nd, 3rd) fails in turn - ~1700 (quick) fault scripts on 18 lists x 6 allocator kinds; after the throw every live vector and element is observed and compared with the model and with the unchanged spec state; guard zones, double free, leak check after destroying everything, live-object registry; retry of the failed operation.",
+         "5 C17"),
 }
 
 checks = []
